@@ -60,6 +60,12 @@ class ScriptRng:
         m = int(a) if isinstance(a, (int, np.integer)) else len(a)
         r = self._next()
         i = min(int(r * m), m - 1)
+        if p is not None:
+            # never draw an index of probability zero (a real generator cannot either)
+            for _ in range(m):
+                if float(p[i]) > 1e-12:
+                    break
+                i = (i + 1) % m
         self.calls.append(["c", m, i, None if p is None else fl(p)])
         return i if isinstance(a, (int, np.integer)) else a[i]
 
@@ -352,7 +358,11 @@ def run_law(case):
         box[0] = float(v)
         return v
 
+    # transmission probability of the uniform-loss branch (Loss with equal values on every
+    # mode is uniform loss as well)
     p_keep = None if case.get("eta") is None else float(case["eta"]) ** 2
+    if p_keep is None and case.get("loss") is not None and len(set(case["loss"])) == 1:
+        p_keep = float(case["loss"][0]) ** 2
 
     def run_once(rng):
         np.random.default_rng = lambda *a, **k: rng
